@@ -49,6 +49,11 @@ def gen_pack_case(rng, tier="quick", small=False):
         "sim": gen_sim_cfg(rng),
         "store": gen_store_cfg(rng),
     }
+    if rng.random() < 0.15:
+        # the frame that is packed was itself read back from a packed dataset (another p,
+        # another partition count): its index is already called hilbert_distance
+        case["repack"] = {"npartitions": rng.choice((1, 2, 4, 9)), "p": rng.choice((1, 3, 12)),
+                          "tempdir": rng.choice(TEMP_MODES)}
     if rng.random() < 0.3:
         pn = rng.choice((2, 6, 15))
         case["prev"] = {"frame": gen.gen_frame_spec(rng, pn, n_geo=1, index_kind="default"),
@@ -104,13 +109,18 @@ def new_sim(seed, cfg, **kw):
 
 
 def do_pack(fs, root, gdf, parts, npartitions, p, tempdir, compression, overwrite,
-            retry_args=None, tag="in", compute=True):
-    """One real pack_partitions_to_parquet call; returns (returned records, npartitions)."""
-    ddf = make_ddf(gdf, parts, tag)
+            retry_args=None, tag="in", compute=True, ddf=None, name="ds", lazy=False):
+    """One real pack_partitions_to_parquet call; returns (returned records, npartitions).
+    `ddf`: pack this Dask frame instead of building one from `gdf`; `lazy`: return the
+    DaskGeoDataFrame itself."""
+    if ddf is None:
+        ddf = make_ddf(gdf, parts, tag)
     out = ddf.pack_partitions_to_parquet(
-        os.path.join(root, "ds"), filesystem=fs, npartitions=npartitions, p=p,
+        os.path.join(root, name), filesystem=fs, npartitions=npartitions, p=p,
         compression=compression, tempdir_format=tempdir_format(root, tempdir),
         overwrite=overwrite, _retry_args=retry_args)
+    if lazy:
+        return out, out.npartitions
     if not compute:
         return None, out.npartitions
     res = out.compute()
@@ -132,7 +142,7 @@ def inspect_tree(root):
     tmp = os.path.join(root, "tmp")
     if os.path.isdir(tmp):
         out["tmp"] = sorted(os.listdir(tmp))
-    out["other"] = sorted(n for n in os.listdir(root) if n not in ("ds", "tmp"))
+    out["other"] = sorted(n for n in os.listdir(root) if n not in ("ds", "tmp", "ds_src"))
     return out
 
 
